@@ -5,8 +5,10 @@ import (
 	"encoding/hex"
 	"fmt"
 	"os"
+	"os/exec"
 	"path/filepath"
 	"sync"
+	"time"
 
 	"github.com/bamzi/jobrunner"
 	"github.com/dgraph-io/badger/v4"
@@ -20,12 +22,23 @@ var cronOnce sync.Once
 // behaviours can share one store).
 func (s *Session) BackupDir() string { return s.W.Dir + "_backup_" + s.Tag }
 
-func newBackupManager(w *World, location string) (*server.BackupManager, error) {
+// rsyncMode: a stage run with VERIF_RSYNC=1 backs up with the rsync mode (a copy of the store directory) instead
+// of the native one, if rsync is installed. (Every copy is 2.3 GB of disk as the product invokes rsync: the stage
+// is small and removes each copy as soon as it was compared.)
+func (s *Session) rsyncMode() bool {
+	if os.Getenv("VERIF_RSYNC") != "1" {
+		return false
+	}
+	_, err := exec.LookPath("rsync")
+	return err == nil
+}
+
+func newBackupManager(w *World, location string, rsync bool) (*server.BackupManager, error) {
 	cronOnce.Do(func() { jobrunner.Start() }) // NewBackupManager registers itself with the global cron
 	env := *w.Env
 	env.BackupLocation = location
 	env.BackupSchedule = "0 0 1 1 *" // never fires during a check; runs are triggered by the behaviour
-	env.BackupRsync = false
+	env.BackupRsync = rsync
 	bm, err := server.NewBackupManager(w.Store, &env)
 	// the global cron would keep every manager (and with it every store ever opened) alive
 	for _, e := range jobrunner.MainCron.Entries() {
@@ -48,7 +61,7 @@ func runBackup(bm *server.BackupManager) (err error) {
 func (s *Session) backup() error {
 	if s.bm == nil || s.bmWorldGen != s.W.Gen {
 		// first run, or the hub was restarted since: a new manager that reloads its cursor
-		bm, err := newBackupManager(s.W, s.BackupDir())
+		bm, err := newBackupManager(s.W, s.BackupDir(), s.rsyncMode())
 		if err != nil {
 			return err
 		}
@@ -84,7 +97,7 @@ func (s *Session) foreignBackup() error {
 	if err := ds.StoreEntities([]*server.Entity{server.NewEntity(w2.EntP+":intruder", 0)}); err != nil {
 		return err
 	}
-	bm, err := newBackupManager(w2, s.BackupDir())
+	bm, err := newBackupManager(w2, s.BackupDir(), s.rsyncMode())
 	if err != nil {
 		return err
 	}
@@ -108,6 +121,16 @@ func (s *Session) restoreAndCheck(obs *Obs) error {
 func (s *Session) restoreAndCompare(obs *Obs) error {
 	dir := s.W.Dir + "_restored_" + s.Tag
 	_ = os.RemoveAll(dir)
+	if s.rsyncMode() {
+		// the location holds a copy of the store directory (under its own name): a hub is started on a copy of it
+		src := filepath.Join(s.BackupDir(), filepath.Base(s.W.Dir))
+		if out, err := exec.Command("cp", "-r", "--sparse=always", src, dir).CombinedOutput(); err != nil {
+			s.diverge("restore", nil, "the rsync copy of the store directory exists", fmt.Sprintf("%v %s", err, out), "")
+			return nil
+		}
+		_ = os.Remove(filepath.Join(dir, "LOCK"))
+		return s.compareRestored(dir, obs)
+	}
 	db, err := badger.Open(badger.DefaultOptions(dir).WithLogger(nil))
 	if err != nil {
 		return err
@@ -126,9 +149,31 @@ func (s *Session) restoreAndCompare(obs *Obs) error {
 		s.diverge("restore", nil, "backup file loads", lerr.Error(), "")
 		return nil
 	}
-	w2, err := OpenWorld(dir)
-	if err != nil {
-		return err
+	return s.compareRestored(dir, obs)
+}
+
+// compareRestored starts a hub on dir and compares its answers with obs; then the restored hub is written to.
+func (s *Session) compareRestored(dir string, obs *Obs) error {
+	type opened struct {
+		w   *World
+		err error
+	}
+	ch := make(chan opened, 1)
+	go func() {
+		w, err := OpenWorld(dir)
+		ch <- opened{w, err}
+	}()
+	var w2 *World
+	select {
+	case o := <-ch:
+		if o.err != nil {
+			s.diverge("restore", nil, "a hub starts on the restored directory", o.err.Error(), "")
+			return nil
+		}
+		w2 = o.w
+	case <-time.After(5 * time.Minute):
+		// not a verdict: the harness cannot tell a hub that never starts from a machine that is too slow
+		return fmt.Errorf("restore: opening %s did not finish within 5 minutes", dir)
 	}
 	defer w2.Destroy()
 	s2 := &Session{W: w2, H: s.H, Tag: s.Tag, Table: s.Table, Ad: s.Ad, clock: obs.Clock, NoAt: s.NoAt,
@@ -142,10 +187,78 @@ func (s *Session) restoreAndCompare(obs *Obs) error {
 	if err := s2.CheckObs(&cut); err != nil {
 		return fmt.Errorf("restored hub: %w", err)
 	}
+	if len(s2.Divs) == 0 {
+		// the restored hub is a hub: it accepts writes, positions and internal ids continue after the restored data
+		r := &Result{}
+		s2.followUp(r)
+		for _, d := range r.Divs {
+			s2.Divs = append(s2.Divs, d)
+		}
+		if r.Err != "" {
+			s2.diverge("follow-up", nil, "the restored hub accepts writes", r.Err, "")
+		}
+	}
 	s.Checks += s2.Checks
 	for _, d := range s2.Divs {
 		d.Kind = "restored:" + d.Kind
 		s.Divs = append(s.Divs, d)
 	}
 	return nil
+}
+
+// followUp writes one more entity to every live dataset of the session and checks that the feed
+// grows by exactly that entry at its end with a larger token.
+func (s *Session) followUp(r *Result) {
+	// the recovered hub creates a dataset: a name never used, an internal id nobody has, born empty, and what is
+	// written to it stays in it (no reuse of internal identifiers)
+	fresh := "followup-" + s.Tag
+	if nd, err := s.W.Dsm.CreateDataset(fresh, nil); err != nil || nd == nil {
+		r.Divs = append(r.Divs, Divergence{Kind: "follow-up-create", Adapter: "go", Query: fresh, Expected: "the recovered hub creates datasets", Actual: fmt.Sprint(err)})
+		return
+	} else {
+		s.Checks += 2
+		for _, dn := range s.W.Dsm.GetDatasetNames() {
+			if od := s.W.Dsm.GetDataset(dn.Name); od != nil && dn.Name != fresh && od.InternalID == nd.InternalID {
+				r.Divs = append(r.Divs, Divergence{Kind: "follow-up-create", Adapter: "go", Query: fresh,
+					Expected: "an internal dataset id nobody has", Actual: fmt.Sprintf("id %d is also the id of %s", nd.InternalID, dn.Name)})
+				return
+			}
+		}
+		if res, err := nd.GetEntities("", 0); err != nil || len(res.Entities) != 0 {
+			r.Divs = append(r.Divs, Divergence{Kind: "follow-up-create", Adapter: "go", Query: fresh, Expected: "a new dataset is empty", Actual: fmt.Sprint(len(res.Entities), err)})
+			return
+		}
+		if ch, err := nd.GetChanges(0, 0, false); err != nil || len(ch.Entities) != 0 {
+			r.Divs = append(r.Divs, Divergence{Kind: "follow-up-create", Adapter: "go", Query: fresh, Expected: "a new dataset has an empty change log", Actual: fmt.Sprint(len(ch.Entities), err)})
+			return
+		}
+	}
+	for _, n := range s.H.Ds {
+		real := s.DsReal(n)
+		if !s.Ad.Exists(s, real) {
+			continue
+		}
+		before, tokBefore, err := s.Ad.Changes(s, real, 0, 0, false)
+		if err != nil {
+			r.Err = "follow-up: " + err.Error()
+			return
+		}
+		ent := s.Concrete(s.H.Ent[0], 1)
+		ent.ID = s.W.EntP + ":followup-" + s.Tag
+		if err := s.Ad.Store(s, real, []*server.Entity{ent}); err != nil {
+			r.Divs = append(r.Divs, Divergence{Kind: "follow-up-write", Adapter: "go", Query: n, Expected: "the recovered hub accepts writes", Actual: err.Error()})
+			return
+		}
+		after, tokAfter, err := s.Ad.Changes(s, real, 0, 0, false)
+		if err != nil {
+			r.Err = "follow-up: " + err.Error()
+			return
+		}
+		s.Checks++
+		if len(after) != len(before)+1 || !sameSeq(before, after[:len(before)]) || tokAfter <= tokBefore {
+			r.Divs = append(r.Divs, Divergence{Kind: "follow-up-write", Adapter: "go", Query: n,
+				Expected: "feed grows by one entry at its end, token increases", Actual: map[string]any{"before": before, "after": after, "tokens": []uint64{tokBefore, tokAfter}}})
+			return
+		}
+	}
 }
